@@ -41,6 +41,10 @@ def _case(s, k, rng):
         keep2 = two.copy()
         res2 = np.asarray(sample_hdi(two, f), dtype=float)
         same.append(_pair(res2[:, 1]) if res2.shape == (2, 3) else [-998, -998])
+        res2l = np.asarray(sample_hdi(two.tolist(), f), dtype=float)              # the same 2-D input as a list of lists
+        same.append(_pair(res2l[:, 1]) if res2l.shape == (2, 3) else [-995, -995])
+        tiny = np.asarray(sample_hdi(flt * 2.0 ** -60, f), dtype=float).ravel() * 2.0 ** 60      # very small magnitudes (exact power-of-two scaling)
+        same.append(_pair(tiny))
         c0 = _pair(sample_hdi(other[:, 0].copy(), f))
         same.append(r if (res2.shape == (2, 3) and _pair(res2[:, 0]) == c0) else [-997, -997])
         one_col = np.asarray(sample_hdi(arr.reshape(-1, 1), f), dtype=float)
@@ -116,7 +120,7 @@ def run(tier):
     for i in bad[:300]:
         e = events[i]
         ck.violation("Good / call-variant equality / permutation invariance / affine covariance / input unchanged",
-                     {"sample": e["s"], "fraction": e["k"] / 16, "returned": e["r"], "variants[float,list,(uint8,uint16,int8),column,other-column,one-column]": e["same"],
+                     {"sample": e["s"], "fraction": e["k"] / 16, "returned": e["r"], "variants[float,list,(uint8,uint16,int8),column,list-of-lists column,scaled by 2^-60,other-column,one-column]": e["same"],
                       "permuted": e["rp"], "float_values_0.1x-0.37 (as lattice values)": e.get("rf"), "int64_values_2^60+100x (candidate lattice pairs)": e.get("ric"), "affine": {"a": e["a"], "b": e["b"], "returned": e["ra"]}, "input_unchanged": e["unchanged"]},
                      site="sample_hdi")
     ck.sample({"part": "hdi", "sample": events[len(events) // 2]["s"], "fraction": events[len(events) // 2]["k"] / 16,
